@@ -7,41 +7,19 @@ Open Scope N_scope.
 Definition cfg0 : cfg := {| c_keepalive := 75; c_linger := 10 |}.
 Definition heads (n : nat) : list item := repeat (IHead false false) n.
 
-(* the handler starts a streamed response and then RETURNS a different, fresh response *)
-Definition refute_es1 : list ev := [EData [IHead false false]; EStart; EDone (ORet true 200)].
-Definition refute_es2 : list ev := [EData [IHead false false]; EStart].
-
-Lemma order_once_refuted :
-  exists c s, Reach c s /\ closed s = false /\ pc s = PWait /\
-              all_done (removelast (wire s)) = false /\ rids (wire s) = [0; 0].
-Proof.
-  destruct (run cfg0 init refute_es1) as [s|] eqn:E; [|vm_compute in E; discriminate].
-  exists cfg0, s. split; [eapply run_reach; [apply reach_init|exact E]|].
-  vm_compute in E. inversion E; subst; clear E. vm_compute. repeat split; reflexivity.
-Qed.
-
-Lemma answered_or_closed_refuted :
-  exists c s s', Reach c s /\ pc s = PHandler (QMsg {| m_id := 0; m_close := false; m_body := false |}) true /\
-                 step c s (EDone (ORet true 200)) = Some s' /\ closed s' = false /\
-                 out s' = out s ++ [{| r_id := Some 0; r_status := 200; r_done := false |};
-                                    {| r_id := Some 0; r_status := 200; r_done := true |}].
-Proof.
-  destruct (run cfg0 init refute_es2) as [s|] eqn:E; [|vm_compute in E; discriminate].
-  destruct (step cfg0 s (EDone (ORet true 200))) as [s'|] eqn:E2;
-    [|vm_compute in E; inversion E; subst; vm_compute in E2; discriminate].
-  exists cfg0, s, s'. split; [eapply run_reach; [apply reach_init|exact E]|].
-  vm_compute in E. inversion E; subst; clear E. split; [reflexivity|]. split; [exact E2|].
-  vm_compute in E2. inversion E2; subst; clear E2. vm_compute. repeat split; reflexivity.
-Qed.
-
-(* the two repaired endings now close the connection instead: HTTPException after the response was started, and a
-   returned response whose prepare() had failed *)
+(* the three repaired endings close the connection: HTTPException after the response was started (ff054f9), a returned
+   response whose prepare() had failed (ba690df), a fresh response returned after another one was started (2a9b996) *)
 Lemma example_repaired :
-  exists s1 s2,
+  exists s1 s2 s3,
     run cfg0 init [EData [IHead false false]; EStart; EDone (OHttp 404)] = Some s1 /\
     run cfg0 init [EData [IHead false false]; EDone OSwallow] = Some s2 /\
-    closed s1 = true /\ List.map r_done (out s1) = [false] /\ closed s2 = true /\ out s2 = [].
-Proof. eexists. eexists. split; [vm_compute; reflexivity|]. split; [vm_compute; reflexivity|]. vm_compute. repeat split; reflexivity. Qed.
+    run cfg0 init [EData [IHead false false]; EStart; EDone (ORet true 200)] = Some s3 /\
+    closed s1 = true /\ List.map r_done (out s1) = [false] /\ closed s2 = true /\ out s2 = [] /\
+    closed s3 = true /\ List.map r_done (out s3) = [false].
+Proof.
+  eexists. eexists. eexists. split; [vm_compute; reflexivity|]. split; [vm_compute; reflexivity|]. split; [vm_compute; reflexivity|].
+  vm_compute. repeat split; reflexivity.
+Qed.
 
 Lemma example_pipeline :
   exists s, run cfg0 init [EData (heads 40)] = Some s /\
@@ -59,15 +37,14 @@ Lemma example_400 :
             closed s = true /\ List.map r_status (out s) = [200; 200; 400].
 Proof. eexists. split; [vm_compute; reflexivity|]. vm_compute. split; reflexivity. Qed.
 
-Definition benign_es : list ev := [EData (heads 4); EDone (ORet true 200); EStart; EDone OStreamed; EDone (OHttp 404); EStart; EDone (OHttp 403)].
+Definition mixed_es : list ev := [EData (heads 4); EDone (ORet true 200); EStart; EDone OStreamed; EDone (OHttp 404); EStart; EDone (OHttp 403)].
 
-Lemma example_benign :
-  exists s, runb cfg0 init [EData (heads 4); EDone (ORet true 200); EStart; EDone OStreamed; EDone (OHttp 404); EStart; EDone (OHttp 403)] = Some s /\
-            ReachB cfg0 s /\ closed s = true /\
+Lemma example_mixed :
+  exists s, run cfg0 init mixed_es = Some s /\
+            Reach cfg0 s /\ closed s = true /\
             List.map (fun r => (r_id r, r_status r, r_done r)) (wire s) = [(Some 0, 200, true); (Some 1, 200, true); (Some 2, 404, true); (Some 3, 200, false)].
 Proof.
-  change [EData (heads 4); EDone (ORet true 200); EStart; EDone OStreamed; EDone (OHttp 404); EStart; EDone (OHttp 403)] with benign_es.
-  destruct (runb cfg0 init benign_es) as [s|] eqn:E; [|vm_compute in E; discriminate].
-  exists s. split; [reflexivity|]. split; [eapply runb_reachb; [apply reachb_init|exact E]|].
+  destruct (run cfg0 init mixed_es) as [s|] eqn:E; [|vm_compute in E; discriminate].
+  exists s. split; [reflexivity|]. split; [eapply run_reach; [apply reach_init|exact E]|].
   vm_compute in E. inversion E; subst; clear E. vm_compute. split; reflexivity.
 Qed.
